@@ -5,7 +5,7 @@
    [peer_okb] / [world_okb]: all port numbers lie in 1..65535 (what the API server enforces;
    the generator's valid stream satisfies it by construction). *)
 From Coq Require Import List ZArith Bool String.
-From NP Require Import IntervalSet ConnSet ConnSetProofs World Eval Spec EvalProofs Build Connlist ListProofs.
+From NP Require Import IntervalSet ConnSet ConnSetProofs World Eval Spec EvalProofs Build Connlist ListProofs PartitionProofs.
 Import ListNotations.
 Open Scope Z_scope.
 
@@ -65,3 +65,19 @@ Theorem C01_named_port_error_documented pp dst :
   (exists nm, pp_port pp = PName nm) /\ peer_is_ip dst = true.
 Proof. exact (named_port_err_documented pp dst). Qed.
 Print Assumptions C01_named_port_error_documented.
+
+(* the IP peers of a report are the blocks of the partition induced by every ipBlock (and except) of every rule: what the
+   analysis says of a block holds for every single address in it, as source and as destination (admin policies included) *)
+Theorem C01_block_answer_holds_for_every_address w blocks P x :
+  referenced_blocks (w_nps w) = Ok blocks -> In P (ip_partition blocks) -> fst P <= x <= snd P ->
+  (forall dst pr n, s_allows w (PIP P) dst pr n = s_allows w (PIP (x, x)) dst pr n) /\
+  (forall src pr n, s_allows w src (PIP P) pr n = s_allows w src (PIP (x, x)) pr n).
+Proof. exact (block_answer_holds_for_every_address w blocks P x). Qed.
+Print Assumptions C01_block_answer_holds_for_every_address.
+
+(* no cut point of any referenced interval falls strictly inside a block *)
+Theorem C01_rule_intervals_constant_on_blocks blocks iv P x y :
+  In iv blocks -> In P (ip_partition blocks) ->
+  fst P <= x <= snd P -> fst P <= y <= snd P -> in_ivl x iv = in_ivl y iv.
+Proof. exact (interval_constant_on_block blocks iv P x y). Qed.
+Print Assumptions C01_rule_intervals_constant_on_blocks.
